@@ -275,3 +275,50 @@ func RunExploreDecided(j ExploreJob) (viol []Violation, evals int, decided bool)
 	}
 	return
 }
+
+// UintNSequences: MANY UintN calls with varying n on ONE generator (scratch state carried from one draw to the next): every result
+// and the bytes consumed must be what the specification prescribes for that position of the tape.
+func UintNSequences(seed int64, count int) (viol []Violation, evals int) {
+	rng := rand.New(rand.NewSource(seed))
+	var ns []uint64
+	for k := uint(1); k < 64; k++ {
+		ns = append(ns, 1<<k, (1<<k)+1, (1<<k)-1)
+	}
+	ns = append(ns, ^uint64(0), 1, 2, 3, 255, 256, 257, 1000, 65535, 65536, 65537, 1<<40+12345, 1<<56, 1<<48, 1<<32, 1<<24, 1<<16)
+	for c := 0; c < count; c++ {
+		data := make([]byte, 8192)
+		rng.Read(data)
+		t := &tape{data: data}
+		r := random.NewVerifRand(t.read)
+		pos := 0
+		for step := 0; step < 60; step++ {
+			n := ns[rng.Intn(len(ns))]
+			if step%3 == 2 { // a power of 256 right after a draw that pulled more bytes
+				n = uint64(1) << (8 * uint(1+rng.Intn(7)))
+			}
+			got := r.UintN(n)
+			evals++
+			size, _, _ := SpecAttempt(n, 0)
+			var want uint64
+			for {
+				var chunk uint64
+				for i := 0; i < size; i++ {
+					if pos+i < len(data) {
+						chunk |= uint64(data[pos+i]) << (8 * uint(i))
+					}
+				}
+				pos += size
+				_, acc, val := SpecAttempt(n, chunk)
+				if acc {
+					want = val
+					break
+				}
+			}
+			if got != want || t.pos != pos || got >= n {
+				viol = append(viol, Violation{"C15", "UintNDefinition", fmt.Sprintf("draw %d of a sequence on one generator: UintN(%d) = %d after %d source bytes, the specification gives %d after %d [seed %d, sequence %d]", step, n, got, t.pos, want, pos, seed, c)})
+				return
+			}
+		}
+	}
+	return
+}
